@@ -17,8 +17,9 @@ LEVEL_TEXT = ('partial proof over a heuristic scan. PROVED: the composition of p
               'documented in-place list); seeded functions never touch the global generator; the _dft2_coords cache always holds '
               'arange(n)-floor(n/2) because nothing writes it, so results are history independent. SAMPLED, not proved: that each '
               'summary (a row of the scan) is right about what NumPy/Python actually do — random histories on frozen, byte-snapshotted '
-              'caller arrays and objects, op labels taken from the function objects actually run; the scan\'s alias rule is a heuristic.')
-LEVEL_NOTE = ('partial: the proof shows that the effect summaries compose over unbounded histories and stay inside the documented '
+              'caller arrays and objects, op labels resolved through the receiver class MRO to the function that Python will run (not traced); the scan\'s alias rule is a heuristic.')
+LEVEL_NOTE = ('PARTIAL PROOF (category proof because Lean theorems carry the composition argument; NOT a proof of purity of the Python code): '
+              'the proof shows that the effect summaries compose over unbounded histories and stay inside the documented '
               'in-place list; that each summary is faithful is sampled by the correspondence; the scan\'s alias rule is a trusted '
               'heuristic. Plane-state confluence is sampled only.')
 TECHNIQUE = 'Lean 4 proof (induction over histories, decide +kernel on a regenerated effect table) + history-based differential correspondence'
@@ -32,7 +33,8 @@ RULE = ('cases: random histories (length 5..40) of public calls — plane/pupil 
         'earlier pure calls are re-executed later and compared bit-for-bit; plus plane-state confluence cases (two fit_tilt/update orders); '
         'distinct = (history seed, length); non-trivial = the history contains an in-place op, a repeated call and a shared array')
 TRUSTED = ['the alias rule of the effect-site scan (tools/specs/c10.py docstring): which expressions are views and which are fresh',
-           'byte-level snapshots + read-only flags observe every write NumPy performs on the tracked arrays',
+           'byte-level snapshots + read-only flags observe every write NumPy performs on the tracked arrays; object cells are digested '
+           'recursively over vars(obj) (every attribute, nested lentil objects, lists, dicts)',
            'np.random.get_state() captures the whole state of the global generator']
 UNPROVEN = ['each effect summary (row of Gen/Effects.lean) is faithful to the NumPy-level behaviour of the function: sampled by the histories',
             'plane-state confluence (same opd + recorded tilt reached by different update/fit_tilt orders => same multiply/propagate '
@@ -43,6 +45,8 @@ ASSUMPTIONS = ['histories consist of public API functions known to the scan']
 
 # ------------------------------------------------------------------------------------------ generation
 FOCI = ['mixed', 'optics', 'fourier', 'detector', 'spectrum', 'tilt', 'resample', 'misc']
+_EXECUTED = set()      # op labels actually executed by histories in this process
+
 def _uncovered_public_rows():
     """public functions of the generated effect table that no catalogue entry calls directly (their summaries are not sampled by a
     direct call; many are still reached through other calls)"""
@@ -52,14 +56,17 @@ def _uncovered_public_rows():
         hints = set(re.findall(r"op\('([A-Za-z0-9_.]+)'", open(__file__).read()))
     except OSError:
         return []
-    # a hint names the attribute looked up on the receiver; an inherited method is accounted to the class that defines it
-    leaf = {h.split('.')[-1] for h in hints}
-    return sorted(r for r in rows if r not in hints and not (r.split('.')[-1] in leaf and r.count('.') == 2))
+    # exact: a row counts as covered only if a history of THIS run executed a call resolved (through the receiver's MRO) to it
+    return sorted(r for r in rows if r not in _EXECUTED)
+
+def _refresh_unproven():
+    unc = _uncovered_public_rows()
+    note = (f'{len(unc)} public functions were not called directly by any history of this run (their effect summaries were not sampled '
+            'directly; many are reached through other calls): ' + ', '.join(unc))
+    UNPROVEN[:] = [u for u in UNPROVEN if 'public functions were not called directly' not in u] + [note]
 
 def generate(rng, tier):
-    unc = _uncovered_public_rows()
-    note = 'public functions with no direct catalogue call (effect summary never sampled directly): ' + ', '.join(unc)
-    UNPROVEN[:] = [u for u in UNPROVEN if not u.startswith('public functions with no direct catalogue call')] + [note]
+    _refresh_unproven()
     n = {'quick': 60, 'thorough': 1500, 'search': 300}[tier]
     out = []
     for k in range(n):
@@ -83,30 +90,34 @@ def shrink(c):
 
 # ------------------------------------------------------------------------------------------ the world of caller objects
 def _digest(o, world=None):
-    """state digest; inside an object, an array that is itself a tracked cell counts by identity (its content is that cell's business)"""
-    import lentil
+    """state digest of EVERYTHING the object holds (recursively over `vars(obj)` of lentil objects, lists, tuples, dicts, arrays);
+    inside an object, an array that is itself a tracked cell counts by identity (its content is that cell's business)"""
     h = hashlib.sha256()
-    def add(x):
+    seen = set()
+    def add(x, depth=0):
         if isinstance(x, np.ndarray):
             i = world.find(x) if (world is not None and x is not o) else None
             if i is not None: h.update(f'cell#{i}'.encode()); return
-            h.update(str((x.dtype, x.shape)).encode()); h.update(np.ascontiguousarray(x).tobytes())
+            h.update(str((x.dtype, x.shape)).encode())
+            h.update(np.ascontiguousarray(x).tobytes() if x.dtype != object else repr(x.tolist()).encode())
         elif isinstance(x, (list, tuple)):
-            h.update(b'['); [add(y) for y in x]; h.update(b']')
+            h.update(b'['); [add(y, depth + 1) for y in x]; h.update(b']')
+        elif isinstance(x, dict):
+            h.update(b'{'); [(h.update(repr(k).encode()), add(v, depth + 1)) for k, v in sorted(x.items(), key=lambda kv: repr(kv[0]))]; h.update(b'}')
+        elif isinstance(x, slice): h.update(repr(x).encode())
+        elif type(x).__module__.startswith('lentil') and not isinstance(x, type):
+            if id(x) in seen or depth > 6: h.update(b'<cycle>'); return
+            seen.add(id(x))
+            h.update(type(x).__name__.encode())
+            attrs = dict(vars(x)) if hasattr(x, '__dict__') else {}
+            for klass in type(x).__mro__:
+                for sl in getattr(klass, '__slots__', ()):
+                    if hasattr(x, sl): attrs[sl] = getattr(x, sl)
+            for k, v in sorted(attrs.items()):
+                h.update(k.encode()); add(v, depth + 1)
+        elif callable(x): h.update(getattr(x, '__qualname__', 'callable').encode())
         else: h.update(repr(x).encode())
-    if isinstance(o, np.ndarray): add(o)
-    elif isinstance(o, lentil.Plane):
-        add([np.asarray(o.amplitude), np.asarray(o.opd), np.asarray(o.mask), o.pixelscale, [(float(t.x), float(t.y)) for t in o.tilt], str(o.ptype),
-             getattr(o, 'x', None), getattr(o, 'y', None)])
-    elif isinstance(o, lentil.radiometry.Spectrum):
-        add([np.asarray(o.wave), np.asarray(o.value), str(o.waveunit), str(o.valueunit)])
-    elif isinstance(o, lentil.Wavefront):
-        add([o.wavelength, None if o.pixelscale is None else tuple(o.pixelscale), str(o.ptype), o.focal_length, tuple(o.shape),
-             [[np.asarray(f.data), tuple(int(v) for v in f.offset), [(float(t.x), float(t.y)) for t in f.tilt]] for f in o.data]])
-    elif isinstance(o, lentil.field.Field):
-        add([np.asarray(o.data), tuple(int(v) for v in o.offset), [(float(t.x), float(t.y)) for t in o.tilt]])
-    elif isinstance(o, (tuple, list)): add([_digest(x) for x in o])
-    else: add(o)
+    add(o)
     return h.hexdigest()[:16]
 
 class World:
@@ -459,9 +470,11 @@ def _run_history(c):
             rescell = w.add(res, o['reskind'])
         argd = {s: before[i] for s, i in o['bind'].items()}
         if exc is None and refused is None and o['pure']: done.append((o, {s: _digest(w.cells[i]) for s, i in o['bind'].items()}, _digest(res)))
+        _EXECUTED.add(o['fn'])
         steps.append({'fn': o['fn'], 'inplace_flag': o['flag'], 'bind': [[s, i] for s, i in o['bind'].items()], 'res': rescell, 'changed': changed,
                       'allowed': sorted(o['inplace']), 'rng_changed': st0 != st1, 'rng_ok': o['rng_ok'], 'exc': exc,
                       'frozen': [bool(w.frozen[i]) for i in changed], 'kinds': [w.kind[i] for i in changed]})
+    _refresh_unproven()
     return {'steps': steps, 'ncells': len(w.cells)}
 
 def _confluence(c):
